@@ -20,7 +20,8 @@ EXPLANATION = (
     "with C13); (R9) the global by-ref queue is not re-entered while values are still queued; (R10) "
     "IndexedMap::insert keeps the position of a key that is already present.  R8 also requires every lookup of a constant's value on the scoped name table (inherent or through ConstLookup) to fall back to the module level, so a CONST is the same object in a subprogram's own CONST expressions and STRING * n lengths."
     " (R4, extended) the call templates write back the very argument list they stashed."
-    " (R12) wherever the generator builds the path of a variable the shared flag is the one the checker resolved, or - for a name of the generator's own - the constant false; (R1, extended) the re-indexing follows the shift on every path.")
+    " (R12) wherever the generator builds the path of a variable the shared flag is the one the checker resolved, or - for a name of the generator's own - the constant false; (R1, extended) the re-indexing follows the shift on every path."
+    " (R13) a DIM inside a STATIC procedure is allocated once whatever is declared: in the emitter of the IsVariableDefined guard, walked per call site with the constants of that site, every path that reaches the allocation without the guard carries the answer `the procedure is not STATIC`.")
 NOT_DECIDED = ["visibility of values over arbitrary call histories (run-time behaviour)"]
 
 SHIFTING = ("remove", "swap_remove", "insert", "drain", "retain", "truncate", "split_off", "dedup",
